@@ -265,6 +265,11 @@ func warm() {
 				continue
 			}
 			seen[key] = true
+			if p.InPkg != "" {
+				if _, err := os.Stat(filepath.Join(verifDir, "harness", "_inpkg", filepath.Base(p.InPkg))); err != nil {
+					continue // in-package monitors not present
+				}
+			}
 			if _, err := build(work, p); err != nil {
 				die(2, "warm build failed: %v", err)
 			}
